@@ -659,7 +659,8 @@ def gen_string_program(rng, base):
     kind = rng.random()
     sfx = rng.choice(['b', 'b', 'w', 'd'])
     if kind < 0.45:
-        ins('mov ecx, %d' % rng.choice([0, 1, 2, 3, 4, 5, 8]))
+        # (rarely a count beyond 256: the loop must run that many single steps, far below its 0x1000 cap)
+        ins('mov ecx, %d' % (rng.choice([0x101, 0x120]) if rng.random() < 0.015 else rng.choice([0, 1, 2, 3, 4, 5, 8])))
         if rng.random() < 0.3:
             ins('mov eax, %d' % rng.choice([0x41, 0x41424344, 0]))
         ins('rep ' + rng.choice(['movs', 'movs', 'stos', 'lods']) + sfx)
